@@ -118,6 +118,9 @@ func schemaDoc(s node) any {
 var extraMembers = []jmem{
 	{"doc", `"some \"quoted\" text, with: punctuation {} []"`}, {"default", `null`}, {"aliases", `["x","y"]`}, {"order", `"ascending"`},
 	{"precision", `10`}, {"scale", `2.5e0`}, {"x-meta", `{"type":"record","deep":[true,false,null,{"a":[]}]}`}, {"flag", `true`},
+	// JSON member names are case-sensitive and have no separators to ignore: these are unknown attributes too
+	{"logical_type", `"date"`}, {"LogicalType", `"decimal"`}, {"logical-type", `7`}, {"LOGICALTYPE", `"x"`}, {"Type", `"string"`}, {"TYPE", `5`}, {"NAME", `"Zed"`},
+	{"Name", `"Other"`}, {"Namespace", `"q.r"`}, {"name_space", `"q"`}, {"Size", `3`}, {"Symbols", `["Q"]`}, {"Items", `"long"`}, {"Values", `"boolean"`}, {"Fields", `[]`}, {"FIELDS", `null`},
 }
 
 // render writes the document; vary > 0 shuffles members and inserts unknown ones, ws selects a whitespace style.
@@ -272,9 +275,24 @@ func driveC14(c *driverCtx) error {
 			} else {
 				ev["parsed"] = projectLibSchema(sch)
 			}
-			os.Remove(path)
 			c.rec.NewCase()
 			c.rec.Emit(fmt.Sprintf("C14|fileschema|%s", nodeStr(s, "k")), ev)
+			// the schema is the caller's: after it has been edited in place, reading the header again gives the header's schema
+			if err == nil && ev["outcome"] == "ok" {
+				scrambleSchema(&sch, 0)
+				ev2 := map[string]any{"op": "schema_parse", "s": s, "text": ev["text"], "outcome": "ok", "parsed": snode("null", "", "", 0, nil, nil), "marshal": "ok", "remarshalled": s}
+				var sch2 avro.Schema
+				if p := catch(func() { sch2, err = avro.FileSchema(path) }); p != "" {
+					ev2["outcome"] = "panic"
+				} else if err != nil {
+					ev2["outcome"], ev2["err"] = "err", err.Error()
+				} else {
+					ev2["parsed"] = projectLibSchema(sch2)
+				}
+				c.rec.NewCase()
+				c.rec.Emit(fmt.Sprintf("C14|fileschema-again-after-edit|%s", nodeStr(s, "k")), ev2)
+			}
+			os.Remove(path)
 		}
 	}
 	c.extra["tlc_schemas"] = len(tl)
